@@ -338,6 +338,10 @@ class MinGenSet():
                     "solve_time": time.perf_counter() - start_time,
                     "status": self.solver.get_model_status(),
                 }
+                if self.solver.get_model_status() != sw.SolverWrapper.infeasible_status:
+                    # time limit or any other inconclusive status: k was not refuted, so a larger
+                    # generating set found later would not be known to be minimum
+                    return False
         return False
 
     def is_solved(self):
